@@ -72,6 +72,7 @@ struct MPath {
     int nelem = 1;       // parallel elements (a simple path with several: straight axis-parallel spine only)
     dg_t sep = 0;        // separation between elements
     int join = 0;        // 0 natural, 1 miter, 2 bevel, 3 round
+    double prescale = 1; // built at 1/prescale of its size and then scaled up by the library's own scale() (a power of two)
 };
 
 struct MLabel {
@@ -303,6 +304,7 @@ inline J to_json(const MPath& p) {
     if (p.rep.type) j.set("rep", to_json(p.rep));
     if (!p.props.empty()) j.set("props", to_json(p.props));
     j.set("impl", p.impl);
+    if (p.prescale != 1) j.set("prescale", p.prescale);
     if (!p.simple) {
         j.set("simple", false);
         j.set("nelem", p.nelem);
@@ -336,6 +338,7 @@ inline MPath path_from(const J& j) {
     p.bend = j.geti("bend");
     p.sep = j.geti("sep");
     p.join = (int)j.geti("join");
+    p.prescale = j.has("prescale") ? j.getd("prescale", 1) : 1;
     return p;
 }
 inline J to_json(const MLabel& l) {
